@@ -207,7 +207,8 @@ class solve_torchfcn(torch.autograd.Function):
             grad_E = torch.einsum('...rc,...rc->...c', v, Mx.conj())  # (*BABEM, ncols)
 
         # calculate the gradient to the biases matrices
-        grad_mparams = []
+        # (M without E does not influence the solution: no gradient)
+        grad_mparams = [None for _ in mparams]
         if ctx.M is not None and E is not None:
             with torch.enable_grad():
                 mparams = [p.clone().requires_grad_() for p in mparams]
